@@ -264,6 +264,17 @@ class Analyzer:
         args = [self.ev(x) for x in e.args]
         a = args[0]
         bits = e.ty[1]
+        if name == 'libm_cbrt':
+            # the cube root helper of the --no-default-features build IS this call: same atom as an application of cbrtf
+            f = lambda v: math.copysign(abs(float(v)) ** (1.0 / 3.0), float(v))
+            if a.p.is_const() and a.err == 0:
+                # a constant argument: the value is the cube root within one ulp (A-libm), not folded with the host's libm
+                v = fr(f(a.p.constant()))
+                e_ = abs(v) * (Fr(1, 2 ** 23) + Fr(1, 10 ** 12))
+                return AbsF(Poly.const(v), e_, v - e_, v + e_)
+            lo, hi = fr(f(a.lo)) * (1 - Fr(1, 10 ** 6)) - Fr(1, 10 ** 9), fr(f(a.hi)) * (1 + Fr(1, 10 ** 6)) + Fr(1, 10 ** 9)
+            if a.lo < 0: lo = fr(f(a.lo)) * (1 + Fr(1, 10 ** 6)) - Fr(1, 10 ** 9)
+            return self.new_atom(e, lo, hi, kind='app', name='cbrtf', args=args, argnodes=e.args)
         if name == 'abs':
             if a.lo >= 0: return a
             if a.hi <= 0: return AbsF(a.p.scale(-1), a.err, -a.hi, -a.lo)
